@@ -340,6 +340,40 @@ class Body:
                 res.append(c)
         return res
 
+    def fn_value_refs(self):
+        """(bb, path) for every fn item or closure used as a *value* (argument or assignment),
+        i.e. handed to someone else to call"""
+        res = []
+        for b in sorted(self.live):
+            for st in self.blocks[b]["s"]:
+                if st[0] != "=":
+                    continue
+                rv = st[2]
+                ops = []
+                if rv[0] == "use":
+                    ops = [rv[1]]
+                elif rv[0] == "cast":
+                    ops = [rv[2]]
+                elif rv[0] == "agg":
+                    ops = list(rv[2])
+                    if isinstance(rv[1], dict) and "closure" in rv[1]:
+                        res.append((b, rv[1]["closure"]))
+                for o in ops:
+                    if o[0] == "k" and isinstance(o[2], dict):
+                        if "fn" in o[2]:
+                            res.append((b, o[2]["fn"]))
+                        if "closure" in o[2]:
+                            res.append((b, o[2]["closure"]))
+            t = self.blocks[b]["t"]
+            if t[0] == "call":
+                for o in t[2]:
+                    if o[0] == "k" and isinstance(o[2], dict):
+                        if "fn" in o[2]:
+                            res.append((b, o[2]["fn"]))
+                        if "closure" in o[2]:
+                            res.append((b, o[2]["closure"]))
+        return res
+
     # -- definitions of locals (flow-insensitive)
     @property
     def defs(self):
